@@ -190,7 +190,14 @@ def run_case(rec, case):
         with open(f, "wb") as fh:
             fh.write(env_bytes)
         broute = r.choice(["lib", "lib", "cmd", "cli"]) if soc == "nrf54h20" else "lib"
-        exc = c07.run_boot(broute, [f], outdir, 0x2000, kc, soc, wd)
+        if zlib.crc32(f"pipe/{case['n']}".encode()) % 6 == 0 and broute in ("lib", "cmd"):
+            # the configuration arrives through a pipe (`--config-file <(grep SUIT_MPI .config)`, /dev/stdin): it can be
+            # read exactly once
+            with drive.as_pipe(("\n".join(lines) + "\n").encode("utf-8")) as pipe_path:
+                exc = c07.run_boot(broute, [f], outdir, 0x2000, pipe_path, soc, wd)
+            rec.count("kconfig-path:pipe")
+        else:
+            exc = c07.run_boot(broute, [f], outdir, 0x2000, kc, soc, wd)
         rec.count("site:storage")
         rec.count("storage-role:" + role)
         if expect == "rejected":
